@@ -168,7 +168,13 @@ class Gen:
         body.append(Decl(['左'], Dict(kv1)))
         body.append(Decl(['右'], Dict(kv2)))
         body.append(ExprS(Call('显示', [Str('前')])))
-        cmp_ = ExprS(Call('显示', [Bin(rng.choice(['xeq', 'xne']), Var('左'), Var('右'))]))
+        k = rng.random()
+        if k < 0.5:
+            cmp_ = ExprS(Call('显示', [Bin(rng.choice(['xeq', 'xne']), Var('左'), Var('右'))]))
+        else:
+            # the same comparison reached through a list method (包含 / 寻找 use the value comparison of the list's items)
+            cmp_ = ExprS(Call('显示', [MCall(Arr([Var('左'), Var('右')] if rng.random() < 0.5 else [Num('0'), Var('左')]),
+                                             [(rng.choice(['包含', '寻找']), [Var('右')])])]))
         catches = []
         body.append(cmp_)
         body.append(ExprS(Call('显示', [Str('后')])))
@@ -580,7 +586,7 @@ def run(ctx):
     g = Gen(rng)
 
     # ---- modelled programs: three-way + repetition ---------------------------------------------------
-    groups = [('dictcmp', g.dictcmp_program, 120 * scale), ('dicterr', g.dicterr_program, 20 * scale),
+    groups = [('dictcmp', g.dictcmp_program, 120 * scale), ('dicterr', g.dicterr_program, 40 * scale),
               ('dictiter', g.dictiter_program, 60 * scale), ('object', g.object_program, 60 * scale)]
     for name, fn, count in groups:
         ps, tags = [], []
